@@ -103,5 +103,58 @@ def translate_learn(src_root):
             + "    - float32 storage of the offsets is not modelled (values are exact rationals)\n-/\nset_option linter.unusedVariables false\nnamespace LK.Gen.NpC08\nopen LK.NpOps\n\n")
     return head + ("def biasLearn (nrows ncols : Nat) (dampU dampI : Q) (row col : List Nat) (data : List Q) : Q × List Q × List Q :=\n" + body + "\n\nend LK.Gen.NpC08\n")
 
+def _dcg_fn(mod_src, mod, fname, lean_name, params, scores_var):
+    """`array_dcg` / `fixed_dcg`: rank discounts clamped below at 1, reciprocal weights, dot product / sum"""
+    fn = next(f for f in mod.body if isinstance(f, ast.FunctionDef) and f.name == fname)
+    lines = []; notes = []; arrays = set([scores_var] if scores_var else []); result = None
+    for s in fn.body:
+        if isinstance(s, ast.Expr) and isinstance(s.value, ast.Constant): continue
+        u = ast.unparse(s)
+        if isinstance(s, ast.Assign) and len(s.targets) == 1 and isinstance(s.targets[0], ast.Name):
+            t = s.targets[0].id; v = s.value; uv = ast.unparse(v)
+            if scores_var and uv == f"np.nan_to_num({scores_var})" and t == scores_var:
+                notes.append(f"line {s.lineno}: `{u}` — gains are exact rationals here, NaN does not occur"); continue
+            if uv in (f"np.arange(1, len({scores_var}) + 1)" if scores_var else "", "np.arange(1, n + 1)"):
+                arrays.add(t); lines.append(f"  let {t} := npArange1 " + (f"{scores_var}.length" if scores_var and "len(" in uv else "n")); continue
+            if isinstance(v, ast.Call) and ast.unparse(v.func) == "np.asarray" and isinstance(v.args[0], ast.Call) and ast.unparse(v.args[0].func) == "discount" \
+                    and isinstance(v.args[0].args[0], ast.Name) and v.args[0].args[0].id in arrays:
+                arrays.add(t); lines.append(f"  let {t} := npApply discount {v.args[0].args[0].id}")
+                notes.append(f"line {s.lineno}: the discount function is applied rank by rank"); continue
+            if isinstance(v, ast.Call) and ast.unparse(v.func) == "np.maximum" and len(v.args) == 2 and isinstance(v.args[0], ast.Name) and v.args[0].id in arrays and ast.unparse(v.args[1]) == "1" and not v.keywords:
+                arrays.add(t); lines.append(f"  let {t} := npMaximumScalar {v.args[0].id} 1"); continue
+            if isinstance(v, ast.Call) and ast.unparse(v.func) == "np.reciprocal" and len(v.args) == 1 and isinstance(v.args[0], ast.Name) and v.args[0].id in arrays and not v.keywords:
+                arrays.add(t); lines.append(f"  let {t} := npReciprocal {v.args[0].id}"); continue
+            raise Unsupported(f"{fname} line {s.lineno}: {u[:80]}")
+        if isinstance(s, ast.Expr) and isinstance(s.value, ast.Call):
+            c = s.value; f = ast.unparse(c.func); kw = {k.arg: ast.unparse(k.value) for k in c.keywords}
+            if f == "np.maximum" and len(c.args) == 2 and isinstance(c.args[0], ast.Name) and c.args[0].id in arrays and ast.unparse(c.args[1]) == "1" and kw == {"out": c.args[0].id}:
+                lines.append(f"  let {c.args[0].id} := npMaximumScalar {c.args[0].id} 1"); continue
+            if f == "np.reciprocal" and len(c.args) == 1 and isinstance(c.args[0], ast.Name) and c.args[0].id in arrays and kw == {"out": c.args[0].id}:
+                lines.append(f"  let {c.args[0].id} := npReciprocal {c.args[0].id}"); continue
+            raise Unsupported(f"{fname} line {s.lineno}: {u[:80]}")
+        if isinstance(s, ast.Return):
+            uv = ast.unparse(s.value)
+            v = s.value
+            if isinstance(v, ast.Call) and ast.unparse(v.func) == "np.dot" and len(v.args) == 2 and all(isinstance(a, ast.Name) and a.id in arrays for a in v.args):
+                result = f"npDot {v.args[0].id} {v.args[1].id}"; break
+            if isinstance(v, ast.Call) and ast.unparse(v.func) == "np.sum" and len(v.args) == 1 and isinstance(v.args[0], ast.Name) and v.args[0].id in arrays:
+                result = f"npSum {v.args[0].id}"; break
+            raise Unsupported(f"{fname} return: {uv[:80]}")
+        raise Unsupported(f"{fname} line {s.lineno}: {u[:80]}")
+    if result is None: raise Unsupported(f"{fname}: no return")
+    seg = ast.get_source_segment(mod_src, fn)
+    return (f"def {lean_name} {params} : Q :=\n" + "\n".join(lines) + f"\n  {result}\n", notes, hashlib.sha256(seg.encode()).hexdigest()[:16])
+
+def translate_dcg(src_root):
+    rel = "metrics/ranking/_dcg.py"; src = open(os.path.join(src_root, rel)).read(); mod = ast.parse(src)
+    a, na, da = _dcg_fn(src, mod, "array_dcg", "arrayDcgT", "(discount : Nat → Q) (scores : List Q)", "scores")
+    f, nf, df = _dcg_fn(src, mod, "fixed_dcg", "fixedDcgT", "(discount : Nat → Q) (n : Nat)", None)
+    head = ("import LK.Model.NpOps\n/-! GENERATED by translate/py2lean_np.py on every run of `./check C06`; do not edit.\n"
+            f"* `arrayDcgT` ← {rel} array_dcg, source sha256/64 {da}\n" + "".join(f"    - {n}\n" for n in dict.fromkeys(na))
+            + f"* `fixedDcgT` ← {rel} fixed_dcg, source sha256/64 {df}\n" + "".join(f"    - {n}\n" for n in dict.fromkeys(nf))
+            + "-/\nset_option linter.unusedVariables false\nnamespace LK.Gen.NpC06\nopen LK.NpOps\n\n")
+    return head + a + "\n" + f + "\nend LK.Gen.NpC06\n"
+
 if __name__ == "__main__":
+    if len(sys.argv) > 1 and sys.argv[1] == "dcg": print(translate_dcg(sys.argv[2] if len(sys.argv) > 2 else "/repo/src/lenskit")); sys.exit(0)
     print(translate_learn(sys.argv[1] if len(sys.argv) > 1 else "/repo/src/lenskit"))
